@@ -590,7 +590,7 @@ func (sdb *DbSqlite) edgePoints(nodeID, parentID string, points data.Points) err
 
 	if nodeID == sdb.rootNodeID() {
 		for _, p := range points {
-			if p.Type == data.PointTypeTombstone && p.Value > 0 {
+			if p.Type == data.PointTypeTombstone && p.Value != 0 {
 				return fmt.Errorf("Error, can't delete root node")
 			}
 		}
